@@ -467,6 +467,24 @@ func (h *harness) checkScenario(sc *scenario) {
 			fail("data trailer sent to a plugin that does not report thriftgo >= v0.4.2", "no trailer", "trailer")
 		}
 	}
+	if nLang > 1 && !anyFault {
+		// every language runs every plugin (model: generateCalls)
+		if len(obs.records) != nLang*len(sc.Plugins) {
+			fail("number of plugin executions with several -g", nLang*len(sc.Plugins), len(obs.records))
+		} else {
+			per := make([]string, nLang)
+			for i := range per {
+				per[i] = fmt.Sprint(len(sc.Plugins))
+			}
+			cases = append(cases, mcase{fmt.Sprintf("gen %d %d", nLang, len(sc.Plugins)), fmt.Sprintf("ok %d %s", nLang, strings.Join(per, " "))})
+			for i, rec := range obs.records {
+				want := "id=" + sc.Plugins[i%len(sc.Plugins)].ID
+				if len(rec.Params) == 0 || rec.Params[0] != want {
+					fail("plugin parameters with several -g", want, rec.Params)
+				}
+			}
+		}
+	}
 	h.out.Stats["process:plugin-executions"] += len(obs.records)
 }
 
@@ -543,6 +561,15 @@ func (h *harness) catalogue() []*scenario {
 		out = append(out, s)
 	}
 	one := func(sc pScript, opts ...[2]string) []pPlugin { return []pPlugin{{ID: "p0", Opts: opts, Script: sc}} }
+	// REGRESSION (repaired): g.plugins grew with every Generate call: the second language panicked, exit 0
+	add("two-languages-one-plugin", func(s *scenario) {
+		s.Gen = []string{"go", "go:gen_setter"}
+		s.Plugins = one(pScript{Files: okFiles("p0")})
+	})
+	// REGRESSION (repaired): a first byte >= 0x80 is a negative TType for the fast codec's Skip: used to panic, exit 0
+	add("invalid-bytes-negative-ttype", func(s *scenario) {
+		s.Plugins = one(pScript{Mode: "raw", Raw: base64.StdEncoding.EncodeToString([]byte{0x80, 0x00, 0x01, 0x00})})
+	})
 	add("ok-files-patches-warnings", func(s *scenario) {
 		s.Plugins = one(pScript{Files: okFiles("p0"), Warnings: []string{"C11W-p0-1", "C11W-p0-2 with spaces"}}, [2]string{"a", "1"}, [2]string{"flag", "\x00"}, [2]string{"v", "x=y:z"})
 	})
@@ -554,10 +581,6 @@ func (h *harness) catalogue() []*scenario {
 	add("partial-stdout", func(s *scenario) { s.Plugins = one(pScript{Mode: "partial", Keep: 9, Files: okFiles("p0")}) })
 	add("invalid-bytes", func(s *scenario) {
 		s.Plugins = one(pScript{Mode: "raw", Raw: base64.StdEncoding.EncodeToString([]byte("this is not thrift"))})
-	})
-	// DEFECT PROBE: a first byte >= 0x80 is a negative TType for the fast codec's Skip
-	add("invalid-bytes-negative-ttype", func(s *scenario) {
-		s.Plugins = one(pScript{Mode: "raw", Raw: base64.StdEncoding.EncodeToString([]byte{0x80, 0x00, 0x01, 0x00})})
 	})
 	add("empty-stdout", func(s *scenario) { s.Plugins = one(pScript{Mode: "raw", Raw: ""}) })
 	add("response-error", func(s *scenario) {
@@ -591,10 +614,6 @@ func (h *harness) catalogue() []*scenario {
 		s.Plugins = one(pScript{Mode: "sleep", SleepMs: 300, Files: okFiles("p0")})
 	})
 	add("exit-255-no-output", func(s *scenario) { s.Plugins = one(pScript{Exit: 255, Mode: "raw"}) })
-	add("two-languages-one-plugin", func(s *scenario) {
-		s.Gen = []string{"go", "go:gen_setter"}
-		s.Plugins = one(pScript{Files: okFiles("p0")})
-	})
 	return out
 }
 
@@ -685,11 +704,23 @@ func (h *harness) digestible(s *scenario) bool {
 	return err == nil && !strings.Contains(string(out), "Recovered from panic")
 }
 
+// nRegression: the first scenarios of the catalogue are witnesses of repaired defects; they run first.
+const nRegression = 2
+
+func (h *harness) processRegressions() {
+	for _, s := range h.catalogue()[:nRegression] {
+		h.checkScenario(s)
+	}
+}
+
 func (h *harness) suiteProcess(n int) {
 	cat := h.catalogue()
 	for i, s := range cat {
 		if i >= n {
 			break
+		}
+		if i < nRegression {
+			continue // already run by processRegressions
 		}
 		h.checkScenario(s)
 	}
